@@ -290,6 +290,64 @@ theorem checkSem_iff (P : CPolicy) (out : Ms) :
     checkSem P out = true ↔ ∀ W : World, Pol.holdsCW W P = satEx (availOfWorld W) out :=
   ⟨semantic_check_adequate P out, semantic_check_complete P out⟩
 
+/-! ## T5  The lift of a compiled taproot descriptor; the class that must compile -/
+
+/-- `or(pk(0), and(pk(1), older(10)))` -/
+def polExFwd : CPolicy := .or [.atom (.key 0), .and [.atom (.key 1), .atom (.older 10)]]
+
+/-- SOUNDNESS of the `J trlift` judge: if it accepts the library's lift `q` of a compiled
+`tr(…)` descriptor (internal key included), then `q` and the concrete policy have the same
+truth value under EVERY assignment in which the caller's unspendable key does not sign -/
+theorem trLiftOk_sound (unsp : Option Nat) (P : CPolicy) (q : Pol.Policy)
+    (h : trLiftOk unsp P q = true) (v : Atom → Bool)
+    (hu : ∀ u, unsp = some u → v (.key u) = false) : Pol.holdsA v q = Pol.holdsC v P := by
+  unfold trLiftOk at h
+  obtain ⟨w, hw, hag⟩ := forallVals_spec _ _ h v
+  have hm : ∀ a ∈ Pol.atomsOfC P ++ Pol.atomsOf q, maskKey unsp w a = v a := by
+    intro a ha
+    unfold maskKey
+    cases hun : unsp with
+    | none => exact hag a ha
+    | some u =>
+      simp only
+      by_cases hk : a = Pol.Atom.key u
+      · subst hk; simp [hu u hun]
+      · have : (a == Pol.Atom.key u) = false := by simpa using hk
+        rw [this]; simpa using hag a ha
+  have hw' : Pol.holdsA (maskKey unsp w) q = Pol.holdsC (maskKey unsp w) P := by simpa using hw
+  rw [← holdsA_congr (maskKey unsp w) v q (fun a ha => hm a (List.mem_append_right _ ha)),
+    ← holdsC_congr (maskKey unsp w) v P (fun a ha => hm a (List.mem_append_left _ ha))]
+  exact hw'
+
+/-- what the class judged by `J compiles` consists of -/
+theorem mustCompile_spec (P : CPolicy) (h : mustCompile P = true) :
+    (Pol.atomsOfC P).length ≤ 4 ∧ noConst P = true ∧ binaryOps P = true ∧ Pol.WFC P = true
+    ∧ hasDup (keyIds (Pol.atomsOfC P)) = false
+    ∧ Pol.Conc.checkTimelocks P = true
+    ∧ Pol.Conc.isSafeNonmalleable P = (true, true) := by
+  unfold mustCompile at h
+  simp only [Bool.and_eq_true, decide_eq_true_eq, Bool.not_eq_true', beq_iff_eq] at h
+  obtain ⟨⟨⟨⟨⟨⟨⟨h1, h2⟩, h3⟩, h4⟩, _⟩, h6⟩, h7⟩, h8⟩ := h
+  exact ⟨h1, h2, h3, h4, h6, h7, h8⟩
+
+/-- the class is not empty: `or(pk(0), and(pk(1), older(10)))` is in it … -/
+example : mustCompile polExFwd = true := by decide +kernel
+/-- … a policy with a repeated key or a sigless branch is not -/
+example : mustCompile (.or [.atom (.key 0), .atom (.key 0)]) = false := by decide +kernel
+example : mustCompile (.or [.atom (.key 0), .atom (.older 10)]) = false := by decide +kernel
+
+/-- the lift judge accepts `thresh(1, pk(0), and(pk(1), older(10)))` for `polEx` and rejects a
+lift in which the two leaves swapped their locks' owner -/
+example : trLiftOk none polExFwd
+    (.thresh 1 [.atom (.key 0), .thresh 2 [.atom (.key 1), .atom (.older 10)]]) = true := by decide +kernel
+theorem lift_with_wrong_leaf_rejected : trLiftOk none polExFwd
+    (.thresh 1 [.atom (.key 0), .thresh 2 [.atom (.key 0), .atom (.older 10)]]) = false := by decide +kernel
+/-- the unspendable internal key does not count as a spending path -/
+example : trLiftOk (some 9) (.and [.atom (.key 1), .atom (.older 10)])
+    (.thresh 1 [.atom (.key 9), .thresh 2 [.atom (.key 1), .atom (.older 10)]]) = true := by decide +kernel
+theorem unspendable_key_is_masked : trLiftOk none (.and [.atom (.key 1), .atom (.older 10)])
+    (.thresh 1 [.atom (.key 9), .thresh 2 [.atom (.key 1), .atom (.older 10)]]) = false := by decide +kernel
+
 /-! ## Non-vacuity and sensitivity
 
 `satEx` is defined by well-founded recursion and does not reduce in the kernel, so the concrete
